@@ -7,9 +7,13 @@
    output is ordered is checked by the correspondence run (all four kinds compared on every case) but not proved.
    ALONG AN AXIS (via the lane theorem of C08): sorting keeps the shape and every lane of the result is the sort of the
    corresponding lane of the input — a permutation of it for every kind, ordered for quicksort and merge sort
-   (C10_sort_axis).  argsort / unique / argmax relations are checked by the correspondence run only. *)
+   (C10_sort_axis).  ORDER QUERIES: unique returns the distinct values in strictly increasing order (C10_unique); argmax /
+   argmin return the first position of a largest / smallest element (C10_arg_extreme); argsort, for any of the four
+   kinds, assigns every element a position of the sorted lane holding that element, the assignment is a duplicate-free
+   list of positions (a permutation), and equal elements are ranked in order of appearance (C10_argsort).
+   That heap / tim sort outputs are ordered is checked by the correspondence run only. *)
 From Coq Require Import Permutation Sorted.
-From ArrRs Require Import Index Axis Axis_proofs Broadcast_proofs Reduce Along_proofs Sort Sort_proofs Along_uses.
+From ArrRs Require Import Index Axis Axis_proofs Broadcast_proofs Reduce Along_proofs Sort Sort_proofs Along_uses Order_proofs Argsort_proofs.
 
 Theorem C10_merge_sort : forall (T : Type) (ltb : T -> T -> bool),
   (forall x y, ltb x y = true -> le ltb x y) -> (forall x y z, le ltb x y -> le ltb y z -> le ltb x z) ->
@@ -59,6 +63,35 @@ Theorem C10_sorted_of_def : forall (T : Type) (ltb : T -> T -> bool) (d : T),
   (forall x y, ltb x y = true -> le ltb x y) -> (forall x y z, le ltb x y -> le ltb y z -> le ltb x z) ->
   forall k l, sort_list ltb d k l = Ok (sorted_of ltb d k l).
 Proof. intros T ltb d H1 H2 k l. exact (proj1 (sorted_of_spec ltb d H1 H2 k l)). Qed.
+
+(* order queries, for a total order with decidable equality *)
+Theorem C10_unique : forall (T : Type) (ltb eqb : T -> T -> bool),
+  (forall x y, ltb x y = true -> le ltb x y) -> (forall x y z, le ltb x y -> le ltb y z -> le ltb x z) ->
+  (forall x y, le ltb x y -> le ltb y x -> x = y) -> (forall x y, eqb x y = true <-> x = y) ->
+  forall a : arr T, exists r, unique1 ltb eqb a = Ok r /\ shape r = [length (elems r)] /\
+    StronglySorted (slt ltb) (elems r) /\ (forall y, In y (elems r) <-> In y (elems a)) /\ NoDup (elems r).
+Proof. exact @unique1_spec. Qed.
+
+Theorem C10_arg_extreme : forall (T : Type) (ltb eqb : T -> T -> bool) (d : T),
+  (forall x y, ltb x y = true -> le ltb x y) -> (forall x y z, le ltb x y -> le ltb y z -> le ltb x z) ->
+  (forall x y, eqb x y = true <-> x = y) ->
+  forall max (l : list T), l <> [] ->
+  exists i, arg_extreme1 ltb eqb d max l = Ok i /\ i < length l /\
+    (forall y, In y l -> if max then le ltb y (nth i l d) else le ltb (nth i l d) y) /\
+    (forall j, j < i -> nth j l d <> nth i l d).
+Proof. exact @arg_extreme1_spec. Qed.
+
+Theorem C10_argsort : forall (T : Type) (ltb eqb : T -> T -> bool) (d : T),
+  (forall x y, eqb x y = true <-> x = y) ->
+  (forall x y, ltb x y = true -> le ltb x y) -> (forall x y z, le ltb x y -> le ltb y z -> le ltb x z) ->
+  forall k (a : arr T),
+  exists s r, sort_list ltb d k (elems a) = Ok s /\ Permutation (elems a) s /\
+    (k = Quicksort \/ k = Mergesort -> sorted ltb s) /\
+    argsort1 ltb eqb d k a = Ok r /\ shape r = [len a] /\ length (elems r) = len a /\
+    (forall i, i < len a -> nth i (elems r) 0 < len a /\ nth (nth i (elems r) 0) s d = nth i (elems a) d) /\
+    NoDup (elems r) /\
+    (forall i j, i < j < len a -> nth i (elems a) d = nth j (elems a) d -> nth i (elems r) 0 < nth j (elems r) 0).
+Proof. exact @argsort1_spec. Qed.
 
 (* Z satisfies the order hypotheses (non-vacuity of the section assumptions) and an 8-element instance *)
 Example C10_nonvacuous :
